@@ -926,6 +926,7 @@ pub async fn run(cfg: RunCfg) -> RunResult {
         "crash" => crate::e1crash::run_crash(cfg).await,
         "conc" => crate::e1conc::run_conc(cfg).await,
         "refs" => crate::e1refs::run_refs(cfg).await,
+        "maint" => crate::e1maint::run_maint(cfg).await,
         other => RunResult::harness_error(&cfg, format!("unknown e1 mode {}", other)),
     }
 }
